@@ -30,16 +30,18 @@ def Machine.firstPixel : Machine → Nat
 
 /-- `clocks_line` = left border + screen + right border + retrace -/
 def Machine.clocksLine : Machine → Nat
-  | .k48 => 24 + 128 + 24 + 48
-  | .k128 => 24 + 128 + 24 + 52
+  | .k48 => 224    -- 24 + 128 + 24 + 48
+  | .k128 => 228   -- 24 + 128 + 24 + 52
 
 /-- `clocks_frame` = (lines_all + lines_vsync) * clocks_line -/
 def Machine.clocksFrame : Machine → Nat
-  | .k48 => (48 + 192 + 48 + 24) * (24 + 128 + 24 + 48)
-  | .k128 => (48 + 192 + 48 + 23) * (24 + 128 + 24 + 52)
+  | .k48 => 69888    -- (48 + 192 + 48 + 24) * 224
+  | .k128 => 70908   -- (48 + 192 + 48 + 23) * 228
 
 /-- `clocks_ula_read_origin` = first pixel + `clocks_ula_read_shift` (2) -/
-def Machine.ulaReadOrigin (m : Machine) : Nat := m.firstPixel + 2
+def Machine.ulaReadOrigin : Machine → Nat
+  | .k48 => 14338    -- 14336 + 2
+  | .k128 => 14364   -- 14362 + 2
 
 /-- `clocks_ula_beam_shift` -/
 def ulaBeamShift : Nat := 1
@@ -144,7 +146,9 @@ def Blocks.fromClocks (m : Machine) (clocks : Nat) : Blocks :=
     let c := clocks - m.ulaReadOrigin
     let lines := c / m.clocksLine
     let cols := (c % m.clocksLine) / clocksPerCol + 1
-    let (lines, cols) := if cols > attrCols then (lines + 1, 0) else (lines, cols)
+    let over := cols > attrCols
+    let lines := if over then lines + 1 else lines
+    let cols := if over then 0 else cols
     if lines ≥ canvasHeight then ⟨canvasHeight, 0⟩ else ⟨lines, cols⟩
 
 /-- `BlocksCount::passed_from` (`usize` subtraction; never negative while the clock is monotone
@@ -297,7 +301,9 @@ def nextBorderPixel (m : Machine) (clocks : Nat) : Nat × Nat × Bool :=
     let c := clocks - m.borderOrigin
     let line := c / m.clocksLine
     let pixel := ((c % m.clocksLine) + 1) * pixelsPerClock
-    let (line, pixel) := if pixel - pixelsPerClock ≥ screenWidth then (line + 1, 0) else (line, pixel)
+    let over := pixel - pixelsPerClock ≥ screenWidth
+    let line := if over then line + 1 else line
+    let pixel := if over then 0 else pixel
     if line ≥ screenHeight then (0, 0, true) else (line, pixel, false)
 
 /-- `for p in from..to { set_color(p % 320, p / 320, color, Normal) }` (`n` = pixels left) -/
